@@ -1014,7 +1014,7 @@ def orderby_case(seed):
     rules.append(Rule('R1', [x], body=O(x, y)))
     rules.append(Rule('R2', [y], body=O(x, y)))
     rules.append(Rule('C', [x, y], body=Conj([A('R1', x), A('R2', y)])))
-  extra = rnd.choice([None, None, '@NoInject(O);', '@With(O);', '@NoWith(O);'])
+  extra = rnd.choice([None, None, '@NoInject(O);', '@With(O);', '@NoWith(O);', '@Ground(O);'])
   if extra and body != 'beam':
     ann.append(extra)
   K = 3 if body in ('single', 'distinct', 'expr', 'agg', 'multi_nil') and ckind not in ('selfjoin', 'two_readers') else 2
